@@ -67,7 +67,7 @@ var strategiesWithoutTable = map[string]string{
 func CheckC06(c *Ctx) {
 	run := c.Run
 	run.Technique = "value-term extraction over the stage graph (sources as field projections of the snapshots, sub-indicators as uninterpreted operators, stateless closures inlined as expressions) + role typing of every indicator argument + anchor alignment of decision operands + semantic comparison of each decision closure with its documented rule on all strict sign vectors of the compared quantities"
-	run.Explanation = "For every base strategy the action stream's value term is derived from the current source: which snapshot field (read from the field the extractor's closure selects, not from its name) reaches which parameter of which indicator, and the decision closure as a nested conditional over comparisons. Decided: (a) every argument bound to a role-named parameter of an indicator's Compute (high(s), low(s), closing(s), opening(s), volume(s)) is exactly that price field; (b) the operands of every decision zip refer to the same snapshot position except the two documented previous-vs-current cross-over detectors; (c) the decision closure equals the documented rule (table of 30 strategies) as a function of the signs of the compared quantities — evaluated on every strict sign vector, so branch order, if/switch style or algebraically equivalent rewrites do not matter, while a flipped comparison, a changed threshold field, a different indicator output or price field does. Where an indicator value can be undefined (its documented composition divides by a quantity that can be zero: MFI, RSI, %K, CMF, …) the vectors in which every comparison with that value is unordered (false, as IEEE comparisons with NaN are) are evaluated too: the documented rule then gives Hold. Positions where compared quantities are equal are exempt, as the property states. Whether an indicator's values are right is C01's concern."
+	run.Explanation = "For every base strategy the action stream's value term is derived from the current source: which snapshot field (read from the field the extractor's closure selects, not from its name) reaches which parameter of which indicator, and the decision closure as a nested conditional over comparisons. Decided: (a) every argument bound to a role-named parameter of an indicator's Compute (high(s), low(s), closing(s), opening(s), volume(s)) is exactly that price field; (b) the operands of every decision zip refer to the same snapshot position except the two documented previous-vs-current cross-over detectors; (c) the decision closure equals the documented rule (table of 30 strategies) as a function of the signs of the compared quantities — evaluated on every strict sign vector, so branch order, if/switch style or algebraically equivalent rewrites do not matter, while a flipped comparison, a changed threshold field, a different indicator output or price field does. Where an indicator value can be undefined (its documented composition divides by a quantity that can be zero: MFI, RSI, %K, CMF, …) the vectors in which every comparison with that value is unordered (false, as IEEE comparisons with NaN are) are evaluated too: the documented rule then gives Hold. (d) threshold-wiring: every level field the decision reads (BuyAt, SellAt, …) is initialised by the constructors with the parameter, named constant or literal it was given, not with an expression that changes it. Positions where compared quantities are equal are exempt, as the property states. Whether an indicator's values are right is C01's concern."
 	run.Trusted = []string{"go/types", "decision-rule table rules.DecisionSpecs (from the types' doc comments)", "role vocabulary of parameter names (DESIGN appendix D)", "exact rational-function algebra (internal/sym)"}
 	specs := map[string]decisionSpec{}
 	for _, s := range DecisionSpecs {
@@ -115,6 +115,7 @@ func CheckC06(c *Ctx) {
 				continue
 			}
 			c.compareDecision(r, fi, term, sp)
+			c.thresholdWiring(r, fi, term)
 		}
 	}
 	run.Count("base_strategies", n)
